@@ -33,6 +33,46 @@ theorem dbm_eq_db_add_30 (x : ℝ) (hx : 0 < x) : Conv.dbm x = Conv.db x + 30 :=
 theorem db_negative_iff (x : ℝ) : Conv.dbE x = .error .ValueError ↔ x < 0 := Conv.dbE_error_iff x
 /-- negative input ⇔ ValueError (`dbm`) -/
 theorem dbm_negative_iff (x : ℝ) : Conv.dbmE x = .error .ValueError ↔ x < 0 := Conv.dbmE_error_iff x
+/-! ### the dB scale as an order-preserving homomorphism (ratios ↔ differences) -/
+
+/-- `db(x / y) = db(x) − db(y)`: a power ratio is a level difference -/
+theorem db_div (x y : ℝ) (hx : 0 < x) (hy : 0 < y) : Conv.db (x / y) = Conv.db x - Conv.db y := by
+  simp only [Conv.db_real]
+  rw [Real.log_div hx.ne' hy.ne']
+  ring
+
+/-- `db(xⁿ) = n · db(x)` -/
+theorem db_pow (x : ℝ) (n : ℕ) : Conv.db ((x ^ n : ℝ)) = (n : ℝ) * (Conv.db x : ℝ) := by
+  simp only [Conv.db_real]
+  rw [Real.log_pow]
+  ring
+
+/-- `idb(a + b) = idb(a) · idb(b)`, `idb(0) = 1`, and `idb` is positive: cascaded gains in dB add -/
+theorem idb_add (a b : ℝ) : Conv.idb (a + b) = Conv.idb a * Conv.idb b ∧ Conv.idb (0 : ℝ) = 1 ∧ 0 < Conv.idb a := by
+  simp only [Conv.idb_real]
+  refine ⟨?_, by simp, Real.exp_pos _⟩
+  rw [← Real.exp_add]
+  congr 1
+  ring
+
+/-- the dB scale preserves order on positive powers: `x < y ↔ db(x) < db(y)`; `idb` is strictly increasing -/
+theorem db_strict_mono (x y : ℝ) (hx : 0 < x) (hy : 0 < y) : Conv.db x < Conv.db y ↔ x < y := by
+  simp only [Conv.db_real]
+  have h10 : 0 < Real.log 10 := Real.log_pos (by norm_num)
+  rw [mul_lt_mul_iff_of_pos_left (by norm_num : (0 : ℝ) < 10), div_lt_div_iff_of_pos_right h10]
+  exact Real.log_lt_log_iff hx hy
+
+theorem idb_strict_mono (a b : ℝ) : Conv.idb a < Conv.idb b ↔ a < b := by
+  simp only [Conv.idb_real]
+  have h10 : 0 < Real.log 10 := Real.log_pos (by norm_num)
+  rw [Real.exp_lt_exp, mul_lt_mul_iff_of_pos_right h10, div_lt_div_iff_of_pos_right (by norm_num : (0 : ℝ) < 10)]
+
+/-- `dbm` and `idbm` are `db` / `idb` shifted by 30 dB (1 W = 30 dBm): `idbm(y) = idb(y − 30)` -/
+theorem idbm_eq_idb_sub_30 (y : ℝ) : Conv.idbm y = Conv.idb (y - 30) := by
+  simp only [Conv.idbm_real, Conv.idb_real]
+  congr 1
+  ring
+
 /-- the model's `10**y` is the real power function -/
 theorem idb_is_power (y : ℝ) : Conv.idb y = (10 : ℝ) ^ (y / 10) := by
   unfold Conv.idb; rw [Conv.pow10_real]; simp
